@@ -116,6 +116,24 @@ fn map_parop<T: El + Send + Sync>(w: &mut MapWorld<T>, op: usize) -> VResult<u64
             if !w.m.par_eq(&other) || !other.par_eq(&w.m) {
                 bail!("par_eq is false for equal maps");
             }
+            // the same object on both sides
+            if w.m.par_eq(&w.m) != (w.m == w.m) {
+                bail!("m.par_eq(&m) = {}, m == m is {}", w.m.par_eq(&w.m), w.m == w.m);
+            }
+            // values that are only PartialEq (a NaN is not equal to itself): par_eq must still agree with ==
+            {
+                let (hk, seed) = (w.cfg.hk, w.cfg.seed);
+                let mut nm: griddle::HashMap<u32, f64, gmc::hasher::HB> = griddle::HashMap::with_hasher(gmc::hasher::HB::new(hk, seed));
+                for (i, (&k, &v)) in w.r.iter().enumerate() {
+                    nm.insert(k, if i == 0 { f64::NAN } else { v as f64 });
+                }
+                let nc = nm.clone();
+                #[allow(clippy::eq_op)]
+                let (seq_self, seq_clone) = (nm == nm, nm == nc);
+                if nm.par_eq(&nm) != seq_self || nm.par_eq(&nc) != seq_clone || nc.par_eq(&nm) != seq_clone {
+                    bail!("with a NaN value: par_eq(self) = {}, par_eq(clone) = {}; == gives {} / {}", nm.par_eq(&nm), nm.par_eq(&nc), seq_self, seq_clone);
+                }
+            }
             if let Some((&k, &v)) = w.r.iter().next() {
                 other.insert(T::mk(k, true), T::mk((v + 1) % 3, false));
                 if T::norm(1) != T::norm(0) && (w.m.par_eq(&other) || other.par_eq(&w.m)) {
@@ -257,6 +275,10 @@ fn set_parop<T: El + Send + Sync>(a: &mut SetWorld<T>, b: &mut SetWorld<T>, op: 
         9 => {
             if a.s.par_eq(&b.s) != (ra == rb) || b.s.par_eq(&a.s) != (ra == rb) {
                 bail!("par_eq = {}, == is {}", a.s.par_eq(&b.s), ra == rb);
+            }
+            // the same object on both sides, for all four predicates
+            if !a.s.par_eq(&a.s) || !a.s.par_is_subset(&a.s) || !a.s.par_is_superset(&a.s) || a.s.par_is_disjoint(&a.s) != a.s.is_disjoint(&a.s) {
+                bail!("a parallel predicate disagrees with the sequential one for a set against itself");
             }
             let c = a.s.clone();
             if !a.s.par_eq(&c) {
